@@ -101,7 +101,7 @@ func Samples(kind string) []any {
 	case "array":
 		return []any{[2]int{1, 2}, [1]string{"z"}}
 	case "map":
-		return []any{map[string]any{"a": 1.0, "b": map[string]any{"c": []any{1.0, 2.0}}}, map[string]int{"n": 3}, map[string]any{}}
+		return []any{map[string]any{"b": "held-by-one-instance", "k": 2.0}, map[string]any{"a": 1.0, "b": map[string]any{"c": []any{1.0, 2.0}}}, map[string]int{"n": 3}, map[string]any{}}
 	case "struct":
 		return []any{point{X: 3, S: "p"}}
 	case "ptr_int":
@@ -256,7 +256,7 @@ const valueProcessXML = `<?xml version="1.0" encoding="UTF-8"?>
     <bpmn:serviceTask id="t">
       <bpmn:extensionElements>
         <olive:taskDefinition type="service"/>
-        <olive:taskHeaders><olive:header name="h1" value="x"/><olive:header name="h2" ref="$a.b"/><olive:header name="h3" ref="$missing.path"/><olive:header name="h4" ref="$"/><olive:header name="h5" ref="nodollar"/></olive:taskHeaders>
+        <olive:taskHeaders><olive:header name="h1" value="x"/><olive:header name="h2" value="declared" ref="$a.b"/><olive:header name="h3" ref="$missing.path"/><olive:header name="h4" ref="$"/><olive:header name="h5" ref="nodollar"/></olive:taskHeaders>
         <olive:properties><olive:property name="a" type="object"/><olive:property name="b" type="integer" ref="$a.b"/><olive:property name="c" type="array" ref="$missing.c"/><olive:property name="d" type="object" ref="$a.nothing"/><olive:property name="e" type="integer"/><olive:property name="f" type="string" ref="$a"/></olive:properties>
         <olive:results><olive:field name="r" type="string"/></olive:results>
         <olive:dataOutput name="out" targetRef="dor"/>
@@ -316,7 +316,17 @@ func engineValue(kind string, res *ValueResult) {
 				switch t := tr.(type) {
 				case bpmn.TaskTrace:
 					_ = t.GetProperties()
-					_ = t.GetHeaders()
+					// the header that refers to $a.b: the member's string when this instance has one,
+					// the declared value otherwise -- never what another instance had there
+					wantH := "declared"
+					if m, ok := canon(v).(map[string]any); ok {
+						if sv, ok := m["b"].(string); ok {
+							wantH = sv
+						}
+					}
+					if got, ok := t.GetHeaders()["h2"]; !ok || got != wantH {
+						res.Mismatches = append(res.Mismatches, fmt.Sprintf("engine kind=%s value=%#v: header h2 (value=\"declared\" ref=\"$a.b\") is %q, want %q", kind, v, got, wantH))
+					}
 					if asItem {
 						t.Do(bpmn.DoWithResults(map[string]any{"r": schema.NewValue(v)}), bpmn.DoWithObjects(map[string]any{"out": v}))
 					} else {
